@@ -220,7 +220,7 @@ def op_line(op: dict) -> str:
             ["op reagent_distribution", e_str(op["src_label"]), e_intarg(op["src_start"]), e_intarg(op["src_end"]),
              e_str(op["dst_label"]), e_intarg(op["dst_start"]), e_intarg(op["dst_end"]), e_pynum(op["vol"]),
              str(op.get("diti_reuse", 1)), str(op.get("multi_disp", 1)),
-             (",".join(str(x) for x in op.get("exclude", [])) or "_"), e_str(op.get("liquid_class", "")),
+             (",".join("b" if isinstance(x, Bad) else str(x) for x in op.get("exclude", [])) or "_"), e_str(op.get("liquid_class", "")),
              e_str(op.get("direction", "left_to_right")), e_str(op.get("src_rack_id", "")),
              e_str(op.get("src_rack_type", "")), e_str(op.get("dst_rack_id", "")), e_str(op.get("dst_rack_type", ""))]
         )
